@@ -342,8 +342,10 @@ class Engine(object):
         self.functions_interpreted = set()
 
     # ---------------------------------------------------------------- exploration
-    def explore(self, thunk):
-        """Run thunk(engine) once per feasible path.  Returns list of (outcome, value, path)."""
+    def explore(self, thunk, keep=False):
+        """Run thunk(engine) once per feasible path.  Returns list of (outcome, value, path); the path
+        (with its solvers) is only retained when keep=True - retaining thousands of solvers is what
+        made a single split use gigabytes."""
         work = [[]]
         outs = []
         while work:
@@ -355,13 +357,21 @@ class Engine(object):
                 raise Unsupported("path explosion (> %d paths)" % self.max_paths)
             try:
                 val = thunk(self)
-                outs.append(("ok", val, p))
+                outs.append(("ok", val if keep else None, p if keep else None))
             except PathInfeasible:
                 self.n_infeasible += 1
             except Raised as r:
-                outs.append(("raise", r, p))
+                outs.append(("raise", r, p if keep else None))
             for f in p.forks:
                 work.append(f)
+            if not keep:
+                p.solver = None
+                p.trace = None
+                p.notes = None
+                self.path = None
+                if self.n_paths % 200 == 0:
+                    import gc
+                    gc.collect()
         return outs
 
     # ---------------------------------------------------------------- solver plumbing
